@@ -1,4 +1,5 @@
 // C06 - DIGEST-MD5 (RFC 2831): digest computation, rspauth verification, message grammar (quoting / escaping)
+// NOT REGISTERED in spec.py (work in progress): with symbolic message text cbmc reaches no verdict within the quick cap; see SPEC['outside'].
 #include "c06_common.h"
 #include "base/QXmppSasl.cpp"
 C06_VTABLE(QXmppSaslClient) C06_VTABLE(QXmppSaslClientDigestMd5)
